@@ -12,6 +12,9 @@
               |  L6 S"raise" S<cls> S<text> <isTypeError> <isAttributeError> I<depth>   (depth: see CallOutcome.raised)
               |  L5 S"raise" S<cls> S<text> <isTypeError> <isAttributeError>            (= depth 2: raised by a helper
                      called from the function's own frame, which is what the generated defs of harness/props/c01.py do)
+              |  L4 S"raisebase" S<cls> S<text> I<depth>   an exception that is NOT an instance of `Exception`
+                     (SystemExit, KeyboardInterrupt, GeneratorExit, a direct subclass of BaseException):
+                     `CallOutcome.raisedBase`
               |  L3 S"ptable" L<n> (L2 <params> <beh>).. <default beh>   (behaviour by the `params` value: opaque
                      callables — builtins, partials, callable objects, decorated functions — whose outcome on each
                      argument value was observed on a twin by Python itself)
@@ -41,6 +44,8 @@ def simpleBehOf : PyVal → Option (PyVal → CallOutcome)
   | .list [.str "raise", .str c, .str m, .bool te, .bool ae, .int d] =>
     if d < 0 then none else some fun _ => .raised c m te ae d.toNat
   | .list [.str "raise", .str c, .str m, .bool te, .bool ae] => some fun _ => .raised c m te ae 2
+  | .list [.str "raisebase", .str c, .str m, .int d] =>
+    if d < 0 then none else some fun _ => .raisedBase c m d.toNat
   | _ => none
 
 def behOf : PyVal → Option (PyVal → CallOutcome)
